@@ -16,7 +16,7 @@ def dumpQueue (s : St) : String :=
         :: go (some e.uid) r
   let q := if s.queue.isEmpty then "-" else ",".intercalate (go none s.queue)
   let smq := if s.smQueue.isEmpty then "-"
-    else ",".intercalate (s.smQueue.map fun e => s!"{e.smH.toNat}:{Hex.ofBytes e.data}")
+    else ",".intercalate (s.smQueue.map fun e => s!"{e.smH.toNat}:{Hex.ofBytes e.data}:{ownerName e.owner}")
   s!"q {s.len} {s.userLen} {q} sm {s.sentNr.toNat} {b2n s.rSent} {smq}"
 
 def parseSched (t : String) : Option (List Accept) :=
